@@ -17,7 +17,7 @@ for sid in ids:
         if ap.returncode != 0:
             res = dict(applies_to_head=False, note=ap.stderr.strip()[:200])
         else:
-            env = dict(os.environ, VERIF_REPO=wt, VERIF_OUT=os.path.join(wt, '.vout'))
+            env = dict(os.environ, VERIF_REPO=wt, VERIF_OUT=os.path.join(wt, '.vout'), VERIF_FIRST_VIOLATION='1')
             # the check of the property the change was written against first; if that one is silent, the others
             allp = ['C%02d' % i for i in range(1, 21)]
             for chk in [prop] + ([] if os.environ.get('MATRIX_OWN_ONLY') else [c for c in allp if c != prop]):
